@@ -804,6 +804,8 @@ META = {
               'Network built with object.__new__ (real wait_for_server_message / create_server_response_future / on_message_received / '
               'on_state_changed, real EventBus); Network.send_server_messages -> simulated server: records AddUser/RemoveUser, one '
               'suspension point, per attempt answer after 0.25 s / silence / ConnectionWriteError',
+              'server disconnect -> real Network.on_state_changed(CLOSED, server connection, close_reason) in a task of its own (emits the real '
+              'ConnectionStateChangedEvent with that reason); the CLOSING notification is not delivered; reconnection = sends succeed again',
               'TrackingFlag argument -> SFlag proxy (validated against enum.Flag in the prelude); real TrackingFlag in concrete replay',
               'TransferManager built with object.__new__ (only _transfers, _user_manager) in the cycles harness',
               'real Settings (defaults), real UserManager constructor'],
@@ -825,10 +827,11 @@ META = {
                   'faults': 'RemoveUser write errors, suspending listener: 2 calls fine, 3 calls coarse+fine',
                   'answer_delay': '0.25 s', 'transfer_cycles': '2 cycles x 3 transfers x 2 users, 2 direct calls'},
         'thorough': {'one_user_all_fine': 'every sequence of 1..3 calls with up to 2 failed attempts; 4 calls [now, coarse, fine, fine]',
-                     'one_user_coarse_prefix': '5 calls [now, now|settled, coarse, coarse, fine]; 6 calls: 2 fixed prefixes + fine; 5..8 calls burst / sequential',
+                     'one_user_coarse_prefix': '5 calls [now, now|settled, coarse, coarse, fine]; 6 calls: 1 of 2 fixed prefixes (alternating) + fine; '
+                                               '5..8 calls burst / sequential',
                      'disconnect': 'sequences <= 3 all fine x each of the 7 close reasons; sequences of 4 [now, coarse, coarse, fine] x 1 rotating reason (+ REQUESTED '
                                    'when the disconnect is last) and all coarse x all 7; always with the track-again tail',
-                     'two_users': '3 calls all fine; 4 calls [now, now|all-done, coarse, fine]',
+                     'two_users': '3 calls all fine; 4 calls with a fixed coarse prefix (rotating) + last call fine',
                      'failed_attempts': '<= 1 (2 for <= 3 calls, 3 in faults jobs), then the server confirms',
                      'faults': 'RemoveUser write errors, suspending listener: 3 calls all fine; 3 failed attempts on 2 calls fine and 3 calls coarse+fine',
                      'answer_delay': '0.25 s', 'transfer_cycles': '3 cycles, 3 direct calls; 2 cycles with coarse timing'}},
@@ -922,10 +925,9 @@ def jobs(tier):
         for k, s in enumerate(_seqs(5)):
             out.append(_job('history', s, ['now', ('now', 'settle')[k % 2], C, C, F]))
         for k, s in enumerate(_seqs(4, nusers=2)):
-            out.append(_job('history', s, ['now', ('now', 'all')[k % 2], C, F]))
-        for s in _seqs(6):
-            for pre in (['now'] * 4, ['settle', 'quiet', 'all', 'now']):
-                out.append(_job('history', s, ['now'] + pre + [F]))
+            out.append(_job('history', s, ['now', ('now', 'all')[k % 2], ('now', 'quiet', 'settle', 'all')[(k // 2) % 4], F]))
+        for k, s in enumerate(_seqs(6)):
+            out.append(_job('history', s, ['now'] + (['now'] * 4, ['settle', 'quiet', 'all', 'now'])[k % 2] + [F]))
     # E: long bursts / strictly sequential histories
     for n in (5,) if quick else (5, 6, 7, 8):
         for s in _seqs(n):
